@@ -16,8 +16,9 @@ from . import lang as L
 
 class LoopAnn:
     """loop annotation: invariant(view, i) [, variant(view)] for loop #ordinal of a function"""
-    def __init__(self, name, invariant, variant=None, keep=(), after_break=None, elem=None):
+    def __init__(self, name, invariant, variant=None, keep=(), after_break=None, elem=None, entry=None):
         self.name, self.invariant, self.variant, self.keep, self.after_break = name, invariant, variant, keep, after_break
+        self.entry = entry               # entry(view) -> dict of ghost values captured at loop entry, visible as view.<name>
         self.elem = dict(elem or {})     # element type of lists that are empty at loop entry: {'bits': 'bool'}
 
 
@@ -166,7 +167,7 @@ def run_symbolic(unit, z3_ms=10000, cvc5_ms=20000, both=False, exclude_contracts
     cfg = unit.config(exclude=exclude_contracts)
     out = {'unit': unit.name, 'props': unit.props, 'level': unit.level, 'kind': unit.kind, 'paths': 0, 'obligations': [],
            'out_of_reach': None, 'error': None, 'functions': {}, 'assumed_contracts': [], 'unknown_calls': [],
-           'bounded': unit.bounded, 'covers': []}
+           'bounded': unit.bounded, 'covers': [], 'lemmas_used': []}
     try:
         res = engine.explore(unit, lambda st: SymE(st, cfg), shard=shard)
         out['paths'] = res.paths
@@ -174,6 +175,7 @@ def run_symbolic(unit, z3_ms=10000, cvc5_ms=20000, both=False, exclude_contracts
         out['assumed_contracts'] = res.assumed
         out['unknown_calls'] = res.unknown_calls
         out['covers'] = sorted(res.covers)
+        out['lemmas_used'] = list(res.lemmas_used)
         ts = 0.0
         for o in res.obligs:
             engine.discharge(o, z3_ms, cvc5_ms, both)
